@@ -149,6 +149,8 @@ func (e *env) prototypes(c *config.Configuration) {
 			"cache_ttl":   "0s",
 		}))
 	}
+	e.metaPrototypes(p)
+	e.sharedPrototypes(p)
 	ccDeltas = append([]*int{}, ccFixedDeltas...)
 	ccDeltas = append(ccDeltas, randomDeltas(e.r.Stream("cc-deltas"), e.r.Pick(6, 30), 5)...)
 	seen := map[string]bool{}
